@@ -207,6 +207,12 @@ func (d *DeviceRemote) AddEntityAndFeatures(initialData bool, data *model.NodeMa
 			return nil, err
 		}
 
+		// entities announced as removed are not to be added or updated
+		if !initialData && ei.Description.LastStateChange != nil &&
+			*ei.Description.LastStateChange == model.NetworkManagementStateChangeTypeRemoved {
+			continue
+		}
+
 		entityAddress := ei.Description.EntityAddress.Entity
 
 		entity := d.Entity(entityAddress)
